@@ -62,7 +62,7 @@ def proj(pid: str):
 
     def ret(g: Group):
         return g.ret if g.ret == 'ok' else 'err'
-    if pid == 'C01':
+    if pid in ('C01', 'C03'):
         return lambda g: (tuple(sorted(g.execs)), jobs_of(g), g.now)
     if pid == 'C02':
         return lambda g: (ret(g), tuple(sorted(g.execs)), jobs_of(g))
@@ -79,6 +79,7 @@ def proj(pid: str):
 
 GEN_KW = {
     'C01': {},
+    'C03': {'focus': 'C03'},
     'C02': {'focus': 'C02'},
     'C07': {'focus': 'C07'},
     'C08': {'focus': 'C08', 'kinds': ('once', 'countdown', 'countdown', 'countdown', 'at')},
@@ -102,6 +103,61 @@ def strip_failures(case: SchedCase) -> SchedCase:
     return SchedCase(case.seed, case.executor, case.epoch_ns, lines, case.specs, case.meta, case.tz)
 
 
+def recurring_oracle(case: SchedCase, groups: list[Group]) -> list[str]:
+    """C03: an undisturbed recurring job is executed exactly once at every occurrence of its trigger after its creation /
+    last resume, and after every execution the reported next run is the next occurrence. The occurrence list is
+    enumerated independently (zoneinfo, PEP 495), see oracle_prod.occurrences."""
+    from build import prod_kinds, prod_sx
+    from oracle_prod import occurrences
+    from tz import well_formed
+    out: list[str] = []
+    if not well_formed(case.tz):
+        return out
+    start: dict[int, int | None] = {}       # job -> instant from which it is undisturbed (creation / last resume)
+    anchor: dict[int, int] = {}
+    seen: dict[int, list[int]] = {}
+    prev_now = case.epoch_ns
+    for gi, g in enumerate(groups):
+        t = g.ops[0].split()
+        if t[0] == 'create' and g.ret == 'ok':
+            h = int(t[1])
+            start[h] = prev_now
+            anchor[h] = prev_now
+            seen[h] = []
+        elif t[0] == 'pause' and g.ret == 'ok':
+            start[int(t[1])] = None
+        elif t[0] == 'resume' and g.ret == 'ok':
+            start[int(t[1])] = prev_now
+            seen[int(t[1])] = []
+        for (h, at) in g.execs:
+            if h in seen:
+                seen[h].append(at)
+        if t[0] == 'sleep':
+            for h, s0 in start.items():
+                spec = case.specs.get(h)
+                if s0 is None or spec is None or not prod_kinds(spec) <= {'time', 'interval', 'group'}:
+                    continue
+                want = occurrences(case.tz, spec, s0, g.now, anchor[h])
+                if want is None:
+                    continue
+                got = [x for x in seen[h] if x > s0]
+                if got != want:
+                    miss = [x for x in want if x not in got][:3]
+                    extra = [x for x in got if x not in want][:3]
+                    out.append(f'group {gi}: job {h} ({prod_sx(spec)[:120]}, zone {case.tz}) executed at {len(got)} instants, its trigger has '
+                               f'{len(want)} occurrences in ({s0}, {g.now}]: missing {miss}, unexpected {extra}')
+                    return out
+                st = g.state['jobs'].get(h)
+                if st and st[0] == 'running':
+                    nxt = occurrences(case.tz, spec, g.now, g.now + 40 * 86400 * 10**9, anchor[h])
+                    if nxt and int(st[1]) != nxt[0]:
+                        out.append(f'group {gi}: job {h} reports next run {st[1]} but the next occurrence of its trigger after '
+                                   f'{g.now} is {nxt[0]} (zone {case.tz}, {prod_sx(spec)[:120]})')
+                        return out
+        prev_now = g.now
+    return out
+
+
 class SchedProp:
     component = 'sched'
     assumptions = [
@@ -118,6 +174,8 @@ class SchedProp:
     # -------------------------------------------------------------------------------------------
     def oracle(self, case: SchedCase, groups: list[Group]) -> list[str]:
         from oracle_sched import exc_oracle, sched_oracle
+        if self.pid == 'C03':
+            return recurring_oracle(case, groups)
         found = sched_oracle(groups, case.executor)
         out = [m for p, m in found if p == self.pid]
         if self.pid == 'C10':
@@ -180,6 +238,8 @@ class SchedProp:
 
     def run_T(self, run: Run) -> None:
         n = {'quick': 400, 'thorough': 16000}[run.tier]
+        if self.pid == 'C03':
+            n = {'quick': 40, 'thorough': 3000}[run.tier]
         run.rule = ('seeded random scheduler histories (creations of once/countdown/at jobs with interval, group, '
                     'offset and jitter triggers, control operations, callback (de)registration, enable/disable, '
                     'sleep / blocked-loop advances on a 250 ms grid, injected failures); a case is non-trivial when '
